@@ -100,6 +100,11 @@ func (r *refState) vote(rules string, i, viewArg int) bool {
 	b := r.bs[i]
 	switch rules {
 	case NameChainedHotStuff:
+		// the vote locks the block certified by the certified block's own certificate: a replica that knows the certified
+		// block but cannot look up the block it would have to lock does not vote
+		if r.have(b.QC) && b.QC >= 0 && !r.have(r.bs[b.QC].QC) {
+			return false
+		}
 		if r.have(b.QC) && r.view(b.QC) > r.view(r.lock) {
 			return true // liveness rule
 		}
@@ -116,6 +121,9 @@ func (r *refState) vote(rules string, i, viewArg int) bool {
 		}
 		if !r.have(b.QC) {
 			return false
+		}
+		if b.QC >= 0 && !r.have(r.bs[b.QC].QC) {
+			return false // the block it would have to lock cannot be looked up
 		}
 		return r.view(b.QC) >= r.view(r.lock)
 	}
